@@ -2,11 +2,15 @@ import ScyllaVerif.Model.Util
 import ScyllaVerif.Model.FrameStream
 import ScyllaVerif.Drive.C02
 import ScyllaVerif.Model.Pool
+import ScyllaVerif.Model.PoolReconnect
 /-! Line-protocol driver for C10.
 
 * `frames <hex>`            — `read_response_frame` in a loop over an in-memory reader holding exactly these bytes;
 * `conn <wc> <op>;…`        — the schedule language of `Drive/C02.lean` (`b<hex>` raw bytes from the server, `x` FIN, …);
-* `ka <wc>/<interval>/<timeout> <op>;…` — the same with keep-alive on and the extra operation `t<ms>` (virtual time).
+* `ka <wc>/<interval>/<timeout> <op>;…` — the same with keep-alive on and the extra operation `t<ms>` (virtual time);
+* `rp exp/<min>/<max>/<jlo>/<jhi> <op>;…`, `rp const/<delay>/<jlo>/<jhi> <op>;…` — a reconnect policy session
+  (`Model/PoolReconnect.lean`; ns and parts per million), ops `e<n>` `s` `d`;
+* `poolr <min ms>/<max ms>/<down ms>/<k>` — a pool whose node is down for a while and then comes back.
 -/
 namespace ScyllaVerif.Drive.C10
 open ScyllaVerif.Util ScyllaVerif.FrameStream
@@ -89,6 +93,103 @@ def runPool (cfg script : String) : String :=
     | some st => ",".intercalate st.out.reverse
   | _ => "bad-case"
 
+
+/-! ### reconnect policies (`Model/PoolReconnect.lean`) -/
+
+open ScyllaVerif.PoolReconnect in
+/-- What one `d` may answer: `none` = the call panics for SOME multiplier of the range (then it does for the
+largest), otherwise the interval spanned by the two ends of the jitter range (`mulJ`, `clamp` are monotone). -/
+def rpInterval (cfg : Option ExpCfg) (cur jlo jhi : Nat) : Option (Nat × Nat) :=
+  match mulJ cur jlo, mulJ cur jhi with
+  | some a, some b =>
+    match cfg with
+    | some c => some (clamp a c.min c.max, clamp b c.min c.max)
+    | none => some (a, b)
+  | _, _ => none
+
+def iterN {α : Type} (f : α → α) : Nat → α → α
+  | 0, x => x
+  | n + 1, x => iterN f n (f x)
+
+open ScyllaVerif.PoolReconnect in
+/-- The model's line for an `rp` case is a list of intervals; the implementation's jitter is random, so the
+comparison is MEMBERSHIP: if every delay the implementation reported lies in its interval (up to the f64 rounding of
+`mul_f64`: 2 ns + a relative 10⁻⁹) and it panicked exactly where the model says a call can panic, the model echoes the
+implementation's line; otherwise it prints its intervals. -/
+def runRp (cfg script impl : String) : String :=
+  let parsed : Option (Option ExpCfg × Nat × Nat × Nat) :=
+    match cfg.splitOn "/" with
+    | "exp" :: rest =>
+      match rest.map String.toNat? with
+      | [some mn, some mx, some jlo, some jhi] =>
+        if mn ≤ mx && jlo ≤ jhi && mx ≤ 2 ^ 60 && jhi ≤ 100000000 then
+          some (some { min := mn, max := mx, jlo := jlo, jhi := jhi }, mn, jlo, jhi) else none
+      | _ => none
+    | "const" :: rest =>
+      match rest.map String.toNat? with
+      | [some d, some jlo, some jhi] =>
+        if jlo ≤ jhi && d ≤ 2 ^ 60 && jhi ≤ 100000000 then some (none, d, jlo, jhi) else none
+      | _ => none
+    | _ => none
+  match parsed with
+  | none => "bad-case"
+  | some (c, init, jlo, jhi) =>
+    -- walk the script: the list of answers expected from the `d` ops (`none` = panic at that op index)
+    let rec go : List String → Nat → Nat → List (Option (Nat × Nat) × Nat) → Option (List (Option (Nat × Nat) × Nat))
+      | [], _, _, acc => some acc.reverse
+      | op :: rest, idx, cur, acc =>
+        match C02.splitOp op with
+        | none => none
+        | some (k, arg) =>
+          if k == 'e' then
+            match arg.toNat? with
+            | some n =>
+              if n > 100000 then none else
+              let cur' := match c with
+                | some cfg => iterN (expOnError cfg) n cur
+                | none => cur
+              go rest (idx + 1) cur' acc
+            | none => none
+          else if k == 's' && arg == "" then
+            go rest (idx + 1) (match c with | some cfg => expOnSuccess cfg cur | none => cur) acc
+          else if k == 'd' && arg == "" then
+            match rpInterval c cur jlo jhi with
+            | some iv => go rest (idx + 1) cur ((some iv, idx) :: acc)
+            | none => some ((none, idx) :: acc).reverse     -- the session is gone after a panic
+          else none
+    match go (C02.splitOps script) 0 init [] with
+    | none => "bad-case"
+    | some exp =>
+      let implToks := if impl == "-" || impl == "" then [] else impl.splitOn ","
+      let okTok : (Option (Nat × Nat) × Nat) → String → Bool
+        | (some (lo, hi), _), t =>
+          match t.toNat? with
+          | some v => let sl := 2 + hi / 1000000000; decide (lo ≤ v + sl) && decide (v ≤ hi + sl)
+          | none => false
+        | (none, idx), t => t == s!"PANIC@{idx}"
+      if implToks.length == exp.length && (exp.zip implToks).all (fun (e, t) => okTok e t) then
+        (if exp.isEmpty then "-" else impl)
+      else if exp.isEmpty then "-"
+      else ",".intercalate (exp.map fun
+        | (some (lo, hi), _) => s!"[{lo}..{hi}]"
+        | (none, idx) => s!"PANIC@{idx}")
+
+open ScyllaVerif.PoolReconnect in
+/-- `poolr`: the node refuses for the whole down time (every attempt fails: `Pool.step .openFailed`; the policy's
+session is asked for a delay after each failure and must answer - checked here for 1000 consecutive failures, which
+is `Props.C10.reconnect_get_delay_total` on this configuration), then accepts: the pool is refilled to its target. -/
+def runPoolr (cfg : String) : String :=
+  match (cfg.splitOn "/").map String.toNat? with
+  | [some mn, some mx, some down, some k] =>
+    if mn == 0 || mn > mx || mx > 1000 || down > 5000 || k == 0 || k > 8 then "bad-case" else
+    let c : ExpCfg := { min := mn * 1000000, max := mx * 1000000, jlo := 850000, jhi := 1150000 }
+    let alive := (List.range 1000).all fun n => (expGetDelay c (iterN (expOnError c) n (expInit c)) c.jhi).isSome
+    let p0 := iterN (fun p => ScyllaVerif.Pool.step p .openFailed) 8 ScyllaVerif.Pool.Pool.init
+    let p1 := if alive then openN k p0 else p0
+    let ok := if !p1.shared.isEmpty && p1.shared.all (fun id => !p1.dead.contains id) then 5 else 0
+    s!"down={p0.shared.length},c={p1.shared.length},q={ok}/5"
+  | _ => "bad-case"
+
 def run (case impl : String) : String :=
   match words case with
   | ["frames", hex] =>
@@ -105,6 +206,13 @@ def run (case impl : String) : String :=
       match m.toNat? with
       | some mode => if (wc == "0" || wc == "1") && mode ≤ 2 then C02.runConnEv mode (C02.splitOps ops) else "bad-case"
       | none => "bad-case"
+    | [wc, m, i, t] =>
+      -- the control connection's configuration: an event sender AND keep-alive
+      match m.toNat?, i.toNat?, t.toNat? with
+      | some mode, some i, some t =>
+        if (wc == "0" || wc == "1") && mode ≤ 2 && i > 0 && t > 0 && i ≤ 60000 && t ≤ 60000 then
+          C02.runConnKaEv mode i t (C02.splitOps ops) impl else "bad-case"
+      | _, _, _ => "bad-case"
     | _ => "bad-case"
   | ["kax", cfg, n] =>
     -- n requests in flight against a silent peer with keep-alive on: judged by the oracle only in this form
@@ -115,6 +223,9 @@ def run (case impl : String) : String :=
       if i == 0 || t == 0 || i > 60000 || t > 60000 || n > 40000 then "bad-case" else "kax"
     | _, _ => "bad-case"
   | ["pool", cfg, script] => runPool cfg script
+  | ["rp", cfg, script] => runRp cfg script impl
+  | ["rp", cfg] => runRp cfg "" impl
+  | ["poolr", cfg] => runPoolr cfg
   | ["race", cfg, seed] =>
     -- multi-thread race of submissions with a connection reset: not deterministic, judged by the oracle only
     -- ("every submitted request completes": `Props.C10.race_window_drains`); the model's line is the constant
